@@ -1,7 +1,7 @@
 """C04 -- a merged notebook always validates against its declared notebook
 format.
 
-Same exploration as C03 (default-strategy script product; 38 conflict scripts
+Same exploration as C03 (default-strategy script product; 40 conflict scripts
 x the whole strategy product x 3 text-merge back ends), inputs asserted
 schema-valid first.  Obligation on every feasible path: the model instance of
 the merged notebook validates against nbformat's v4.<minor> schema for the
